@@ -861,6 +861,34 @@ func (cg *caseGen) memoShape(cx ectx) (*pvcase.Expr, bool) {
 // afterwards: it must see e1's value (label scopes end with the construct that opened them).
 func (cg *caseGen) scopeShape(cx ectx) (*pvcase.Expr, bool) {
 	l := pickStr(cg.r, valueLabels)
+	if cg.chance(0.12) {
+		// `l:(T+)? reader`, `l:(T*) reader`, `l:T+? …`: the value a label gets from a repetition over a SINGLE-RUNE operand
+		// that matched nothing (round 15: a fast path of + for class / any operands returned a typed nil slice, which `?`
+		// handed on: the label was bound to []any(nil) instead of nil). The reader is the enclosing action (and a predicate).
+		var t *pvcase.Expr
+		if cg.chance(0.7) {
+			t = cg.cls()
+		} else {
+			t = &pvcase.Expr{Kind: pvcase.KAny}
+		}
+		var w *pvcase.Expr
+		switch cg.r.IntN(4) {
+		case 0, 1:
+			w = un(pvcase.KOpt, un(pvcase.KPlus, t))
+		case 2:
+			w = un(pvcase.KStar, t)
+		default:
+			w = un(pvcase.KOpt, un(pvcase.KAct, un(pvcase.KPlus, t)))
+		}
+		seq := seqOf(&pvcase.Expr{Kind: pvcase.KLab, Label: l, Kids: []*pvcase.Expr{w}})
+		if cg.chance(0.5) {
+			seq.Kids = append([]*pvcase.Expr{un(pvcase.KOpt, cg.nonNullLeaf())}, seq.Kids...)
+		}
+		if cg.f.pred && cg.chance(0.5) {
+			seq.Kids = append(seq.Kids, &pvcase.Expr{Kind: pvcase.KAndc})
+		}
+		return un(pvcase.KAct, seq), true
+	}
 	e1, n1 := cg.expr(cx)
 	e2 := cg.nonNullLeaf()
 	lead := cg.nonNullLeaf()
